@@ -17,7 +17,9 @@ def families(tier, which="ab"):
     fams = [("a", "{5}", "{4}", "{1,2}", "{0,2,3,5}", 0, "Pa3"),
             ("b", "{7}", "{4,8}", "{1,2}", "{3,4}", 2, "Pa3"),
             ("d", "{7}", "{4}", "{1,2}", "{3}", 2, "Pa3"),          # small family for the right-hand-side discretisation (C01)
-            ("c", "{5,7}", "{12}", "{1,2}", "{2,3}", 2, "Pa3")]     # ntheta divisible by 3: the third remainder class of the 3-pass assemblies
+            ("c", "{5,7}", "{12}", "{1,2}", "{2,3}", 2, "Pa3"),     # ntheta divisible by 3: the third remainder class of the 3-pass assemblies
+            ("e", "{5}", "{8}", "{1,2}", "{2}", 2, "Pa3"),          # ntheta mod 3 = 2: the two-line remainder rule of the 3-pass assemblies
+            ("f", "{9}", "{4}", "{1}", "{5,6}", 2, "Pa3")]          # 5 and 6 smoother circles: the remaining residues of the stride-4 circle phases
     return [f for f in fams if f[0] in which]
 
 
@@ -46,12 +48,21 @@ def tables(rep, tier, tag, which="ab"):
 
 def conformance(rep, tier, tabs, what, n_quick, prop_prefix, threads=(1,), scales=(1.0,)):
     rng = random.Random(vlib.seed())
-    sel = list(tabs)
-    rng.shuffle(sel)
-    if tier != "thorough":
-        sel = sel[:n_quick]
-    else:
-        sel = sel[:n_quick * 12]
+    # stratified sample: every grid-shape class (nr, ntheta, circles, boundary mode) of the families is represented - the shape
+    # decides which colour phase / remainder rule / boundary case of the operators is exercised
+    groups = {}
+    for c in tabs:
+        groups.setdefault((c["nr"], c["nt"], c["nc"], c["dir"]), []).append(c)
+    for g in groups.values():
+        rng.shuffle(g)
+    want = n_quick if tier != "thorough" else n_quick * 12
+    sel, k = [], 0
+    keys = sorted(groups)
+    while len(sel) < want and any(groups[g] for g in keys):
+        g = keys[k % len(keys)]
+        if groups[g]:
+            sel.append(groups[g].pop())
+        k += 1
     exe = os.path.join(vlib.build(["drv_stencil"], "gcc"), "drv_stencil")
     path = os.path.join(vlib.BUILD, "cases", "stencil_%s_%s.ndjson" % (what, tier))
     os.makedirs(os.path.dirname(path), exist_ok=True)
